@@ -136,9 +136,14 @@ class ColumnBackend(ArraySchemaBackend):
             else:
                 if getattr(schema, "drop_invalid_rows", False):
                     # replace the check_obj with the validated
-                    check_obj = validate_column(
+                    dropped_check_obj = validate_column(
                         check_obj, column_name, return_check_obj=True
                     )
+                    if dropped_check_obj is None:
+                        # errors that cannot be repaired by dropping rows
+                        # were collected, they are raised below
+                        continue
+                    check_obj = dropped_check_obj
 
                 validated_column = validate_column(
                     check_obj,
